@@ -499,11 +499,10 @@ func hideDefaultIgnorables(buffer *Buffer, font *Font) {
 
 	info := buffer.Info
 
-	var (
-		invisible = buffer.Invisible
-		ok        bool
-	)
-	if invisible == 0 {
+	// the invisible glyph set by the client, else the space glyph of the font
+	invisible := buffer.Invisible
+	ok := invisible != 0
+	if !ok {
 		invisible, ok = font.face.NominalGlyph(' ')
 	}
 	if buffer.Flags&RemoveDefaultIgnorables == 0 && ok {
